@@ -177,8 +177,11 @@ func UnzipToFolder(zipFile, destDir string) error {
 			continue
 		}
 
-		partPath, _ := filepath.Split(z.Name)
-		destPath := filepath.Join(destDir, partPath)
+		destFile := filepath.Join(destDir, z.Name)
+		if !isInsideDir(destDir, destFile) {
+			return fmt.Errorf("UnzipToFolder: the entry %q points outside of %s: %w", z.Name, destDir, os.ErrInvalid)
+		}
+		destPath := filepath.Dir(destFile)
 		if !pathChecked[destPath] {
 			err := EnsureDirExists(destPath)
 			if err != nil {
@@ -192,7 +195,6 @@ func UnzipToFolder(zipFile, destDir string) error {
 			return fmt.Errorf("UnzipToFolder: cannot open file \"%s\" in the ziputil archive: %w", z.Name, err)
 		}
 
-		destFile := filepath.Join(destDir, z.Name)
 		out, err := os.Create(destFile)
 		if err != nil {
 			in.Close()
@@ -208,6 +210,15 @@ func UnzipToFolder(zipFile, destDir string) error {
 	}
 
 	return nil
+}
+
+// isInsideDir returns true if the path p is located inside the directory dir
+func isInsideDir(dir, p string) bool {
+	rel, err := filepath.Rel(dir, p)
+	if err != nil {
+		return false
+	}
+	return rel != "." && rel != ".." && !strings.HasPrefix(rel, ".."+string(filepath.Separator))
 }
 
 // CreateRandomDir creates a randomly name directory in the path with prefix
